@@ -65,6 +65,9 @@ pub struct Ctx {
     next_id: u64,
     out: BufWriter<std::io::Stdout>,
     pub emitted: u64,
+    /// `VERIF_DEADLINE_SECS`: after that many seconds no further case is claimed, so a
+    /// time-capped exploration ends with complete lines instead of being killed mid-case
+    deadline: Option<std::time::Instant>,
 }
 
 impl Ctx {
@@ -112,7 +115,15 @@ impl Ctx {
             next_id: 0,
             out: BufWriter::with_capacity(1 << 16, std::io::stdout()),
             emitted: 0,
+            deadline: std::env::var("VERIF_DEADLINE_SECS")
+                .ok()
+                .and_then(|s| s.parse::<u64>().ok())
+                .map(|s| std::time::Instant::now() + std::time::Duration::from_secs(s)),
         }
+    }
+
+    fn past_deadline(&self) -> bool {
+        matches!(self.deadline, Some(d) if std::time::Instant::now() >= d)
     }
 
     pub fn thorough(&self) -> bool {
@@ -127,6 +138,9 @@ impl Ctx {
     fn claim(&mut self) -> Option<u64> {
         let id = self.next_id;
         self.next_id += 1;
+        if self.past_deadline() {
+            return None;
+        }
         if let Some(o) = self.only {
             return if o == id { Some(id) } else { None };
         }
@@ -165,6 +179,9 @@ impl Ctx {
     /// Is the next case ours?  (lets generators skip expensive input construction)
     pub fn peek_mine(&self) -> bool {
         let id = self.next_id;
+        if self.past_deadline() {
+            return false;
+        }
         if let Some(o) = self.only {
             return o == id;
         }
